@@ -26,8 +26,10 @@ MANIFEST = {
                  "translator on every run) + vm_compute correspondence against the artists read back from the matplotlib axes "
                  "after savefig on the Agg backend + independent recomputation oracle",
     "level_text": "Machine-checked theorems (C19_select, C19_linspace, C19_domain, C19_residuals, C19_hist, C19_labels, C19_order, "
-                  "C19_fit_curve, closed under the global context) about the data the library hands to matplotlib, for all data "
-                  "sets, functions, ranges, object lists and orders of adding (induction, Permutation). The x-range mask, the "
+                  "C19_history, C19_legend, C19_fit_curve_partial, closed under the global context) about the data the library "
+                  "hands to matplotlib, for all data sets, functions, ranges, object lists, orders of adding (Permutation) and "
+                  "histories of adding / switching / rendering (induction over call sequences; the x-range a rendering leaves "
+                  "behind in a function is shown to be unobservable). The x-range mask, the "
                   "number of curve points, the label expressions, the label sources, the aggregates of the plot's x-domain and the "
                   "keyword filters are regenerated from plotobjects.py / plotting.py on every run, so changing one of them breaks "
                   "a proof; the hand-written rest is run against the artists of real figures on random plot scripts in all orders "
@@ -57,6 +59,10 @@ ASSUMPTIONS = [
     "histograms without density / weights / cumulative keywords; at least one sample; at least one bin",
     "data sets are non-empty; inputs are finite floats (dyadic rationals in generated cases)",
     "fit curves: agreement with fit_function is statistical (6 sigma of the sampling error of 10000 samples), not exact",
+    "fit curves of models that are NOT linear in their parameters (exponential, gaussian) are drawn as the Monte Carlo mean of "
+    "f(x; p), which differs from fit_function by a second-order bias; generated cases stay where that bias is far below the "
+    "sampling error (relative parameter uncertainties ~1e-4). With sizeable parameter uncertainties the bias exceeds 6 sigma of "
+    "the sampling error: recorded as known finding mc-mean-bias:exponential-fit-x5 (corpus/C19), replayed by the oracle on every run",
     "units are compared in the form the library prints them (unit printing is C13's subject)",
     "colours, markers and the choice of the default axis label among several named objects are not order-independent and are "
     "excluded from C19_order (the label source is the first named object, as modelled)",
@@ -324,7 +330,12 @@ def gen_script(rng, kind=None):
         else:
             objs = [dict(gen_func(rng), xrange=rng.choice([None, "empty"])) for _ in range(rng.randint(1, 3))]
     has_fit = any(o["kind"] in ("fit", "plotfit") for o in objs)
-    return {"seed": rng.randrange(2 ** 31), "objects": objs, "settings": gen_settings(rng, has_fit), "kind": kind}
+    st = gen_settings(rng, has_fit)
+    if len(objs) >= 2 and rng.random() < 0.3:
+        # a history: the plot is also rendered once after the first k objects (which leaves an x-range behind in the
+        # functions that have none of their own), then the remaining objects are added
+        st["early_render"] = rng.randint(1, len(objs) - 1)
+    return {"seed": rng.randrange(2 ** 31), "objects": objs, "settings": st, "kind": kind}
 
 
 def gen_order_set(rng, k):
@@ -683,6 +694,12 @@ def execute(script, order=None):
             handles.append(h)
             if "returned" in h:
                 obs["returned"].append(h["returned"])
+            if st.get("early_render") == i + 1:
+                try:
+                    p.savefig(io.BytesIO(), format="png", dpi=DPI)
+                except Exception:  # noqa -- a plot that cannot be rendered yet
+                    pass
+                plt.close("all")
         if not st["settings_first"]:
             apply_settings(p, st)
     except Exception as e:  # noqa
@@ -1071,7 +1088,8 @@ def shrink_case(case):
     # 2 simplify settings
     st = dict(script["settings"])
     for k, v in (("legend", False), ("residuals", False), ("renders", 1), ("entry", "class"), ("title", ""),
-                 ("xname", ""), ("yname", ""), ("xunit", ""), ("yunit", ""), ("xrange", None), ("settings_first", True)):
+                 ("xname", ""), ("yname", ""), ("xunit", ""), ("yunit", ""), ("xrange", None), ("settings_first", True),
+                 ("early_render", None)):
         if st.get(k) != v:
             cand = dict(st, **{k: v})
             if fails(mk(objs, cand)):
@@ -1376,6 +1394,19 @@ def correspondence(ctx):
     for _ in range(n_malformed):
         s = gen_script(rng, "malformed")
         cases.append((s, list(range(len(s["objects"]))), "malformed"))
+    # exhaustive small scope of the x-range mask: every (low, high) on a grid around the data values
+    grid = [-0.5, 0.0, 0.5, 1.0, 1.5, 2.0, 2.5]
+    n_grid = 0
+    for lo in grid:
+        for hi in grid:
+            if lo <= hi:
+                d = {"kind": "data", "x": [0.0, 1.0, 2.0, 1.0], "y": [1.5, -2.0, 3.25, 0.5], "xerr": [0.25, 0.0, 0.5, 0.125],
+                     "yerr": [0.5, 0.25, 0.0, 1.0], "name": None, "form": "arrays", "xrange": [lo, hi], "label": None,
+                     "fmt": None, "xname": "", "yname": "", "xunit": "", "yunit": ""}
+                st = {"error_bars": True, "residuals": False, "legend": False, "xrange": None, "title": "", "xname": "",
+                      "yname": "", "xunit": "", "yunit": "", "entry": "class", "renders": 1, "settings_first": True}
+                cases.append(({"seed": 1, "objects": [d], "settings": st, "kind": "mask-grid"}, [0], "mask-grid"))
+                n_grid += 1
     sets = []
     for j in range(n_sets):
         k = rng.choice([2, 2, 3, 3] if ctx.quick else [2, 3, 3, 3, 4])
@@ -1493,5 +1524,8 @@ def correspondence(ctx):
                     "order": c[1], "settings": c[0]["settings"], "status": c[3]["obs"]["status"],
                     "xlabel": c[3]["obs"].get("xlabel"), "legend": c[3]["obs"].get("legend")} for c in usable[:4]]
     res.extra["order_sets"] = len(sets)
+    res.extra["mask_grid_exhaustive"] = "{} (low, high) pairs over {} for the data x = [0, 1, 2, 1]".format(n_grid, grid)
+    res.extra["histories_with_an_early_render"] = sum(1 for c in usable if c[0]["settings"].get("early_render"))
+    res.extra["rendered_twice"] = sum(1 for c in usable if c[0]["settings"].get("renders", 1) > 1)
     res.extra["rendered_ok"] = len(ok_cases)
     return res
